@@ -91,9 +91,9 @@ def nullable_set(grammar):
 
     def item_n(it):
         k = it["k"]
-        if k in ("opt", "star", "pos", "neg", "forced"):
-            return True
-        if k in ("tok", "plus", "gather", "cut"):
+        if k in ("opt", "star", "pos", "neg", "forced", "cut"):
+            return True  # (a cut consumes nothing)
+        if k in ("tok", "plus", "gather"):
             return False
         if k == "rule":
             return it["n"] in nul
@@ -321,8 +321,30 @@ def gen_grammar(r: random.Random, allow_leftrec=True):
     nrules = r.randint(1, 4)
     names = [f"r{i}" for i in range(nrules)]
 
+    made_groups = []
+
+    def variant_of(g):
+        """same items, different action / names: the shapes a helper-rule cache must keep apart"""
+        import copy
+
+        c = copy.deepcopy(g)
+        for a in c["alts"]:
+            if a["action"] is None:
+                a["action"] = "tuple"
+                for j, it in enumerate(a["items"]):
+                    it["name"] = "uvwxyz"[j]
+                    if r.random() < 0.4:
+                        break
+            else:
+                a["action"] = None
+                for it in a["items"]:
+                    it.pop("name", None)
+        return c
+
     def atom(depth, ri):
         k = r.random()
+        if made_groups and k > 0.85 and depth < 2 and r.random() < 0.5:
+            return variant_of(r.choice(made_groups))
         if k < 0.5:
             return {"k": "tok", "s": r.choice(TOKENS)}
         if k < 0.85 or depth >= 2:
@@ -341,7 +363,9 @@ def gen_grammar(r: random.Random, allow_leftrec=True):
             elif r.random() < 0.2 and its:
                 its[0]["name"] = "u"  # a named item without an action (the name must not matter)
             alts.append({"items": its, "action": action})
-        return {"k": "group", "alts": alts}
+        g = {"k": "group", "alts": alts}
+        made_groups.append(g)
+        return g
 
     def item(depth, ri):
         k = r.random()
